@@ -20,16 +20,16 @@ SPEC = dict(
                  'g++ 12 ASan/UBSan/LSan and valgrind memcheck report what they claim to report'],
     legs=[
         Leg('regress', 'h_isolate', 'asan', opts={'mode': 'regress'}, quick=1, thorough=1, workers=1, leaks=True, min_cases=1),
-        Leg('isolate', 'h_isolate', 'asan', opts={'mode': 'isolate'}, quick=2400, thorough=100000, workers=16, leaks=True),
-        Leg('cut', 'h_isolate', 'asan', opts={'mode': 'cut'}, quick=60000, thorough=1200000, workers=16, leaks=True),
-        Leg('memcheck_isolate', 'h_isolate', 'plain', opts={'mode': 'isolate'}, quick=32, thorough=640, workers=16, valgrind=True),
-        Leg('memcheck_cut', 'h_isolate', 'plain', opts={'mode': 'cut'}, quick=1280, thorough=25600, workers=16, valgrind=True),
+        Leg('isolate', 'h_isolate', 'asan', opts={'mode': 'isolate'}, quick=1600, thorough=100000, workers=16, leaks=True),
+        Leg('cut', 'h_isolate', 'asan', opts={'mode': 'cut'}, quick=36000, thorough=1200000, workers=16, leaks=True),
+        Leg('memcheck_isolate', 'h_isolate', 'plain', opts={'mode': 'isolate'}, quick=16, thorough=640, workers=16, valgrind=True),
+        Leg('memcheck_cut', 'h_isolate', 'plain', opts={'mode': 'cut'}, quick=640, thorough=25600, workers=16, valgrind=True),
     ],
     min_stats={'regress': {'regress_cuts': 20, 'selftest_oracle_fired': 1, 'regress_departure_selftest': 1, 'regress_access_denied': 8},
-               'isolate': {'attacker_commands': 100000, 'snapshots': 20000, 'selftest_oracle_fired': 2000, 'attacker_bounced_accessdenied': 20000,
+               'isolate': {'attacker_commands': 80000, 'snapshots': 15000, 'selftest_oracle_fired': 1500, 'attacker_bounced_accessdenied': 20000,
                            'user_messages_delivered_to_victims': 5000, 'snapshots_with_attacker_marks_on_foreign_nodes': 2000, 'max_key_shapes': 27,
-                           'pings_answered': 6000},
-               'cut': {'streams': 60, 'cuts': 50000, 'cuts_mid_header': 2000, 'cuts_mid_body': 40000, 'cuts_at_frame_boundary': 300,
-                       'cuts_with_leaver_marks_on_nodes': 8000, 'cuts_with_leaver_in_cached_tables': 8000, 'cuts_with_witness_shown_leaver_paths': 20000,
-                       'removal_notices_after_cut': 50000, 'selftest_trace_oracle_fired': 50000, 'cuts_half_close': 5000}},
+                           'pings_answered': 4500},
+               'cut': {'streams': 40, 'cuts': 32000, 'cuts_mid_header': 1500, 'cuts_mid_body': 28000, 'cuts_at_frame_boundary': 200,
+                       'cuts_with_leaver_marks_on_nodes': 5000, 'cuts_with_leaver_in_cached_tables': 5000, 'cuts_with_witness_shown_leaver_paths': 15000,
+                       'removal_notices_after_cut': 50000, 'selftest_trace_oracle_fired': 32000, 'cuts_half_close': 5000}},
 )
